@@ -285,10 +285,34 @@ def run_trees(res, rng, tier, tmp, drv, hist):
 NODE_SIZES = [(30, 30), (30, 30), (40, 20), (20, 40), (50, 30), (24, 24)]
 
 
+def _fixed_plan(kind, router, buf, nodes, edges):
+    return {'kind': kind, 'n': len(nodes), 'router': router, 'buf': buf, 'pos': [(x, y) for x, y, w, h in nodes],
+            'dims': [(w, h) for x, y, w, h in nodes], 'edges': edges}
+
+
+# regression inputs (found by this check on the unchanged tree): the two known planarise findings and a routing crash
+FIXED_PLAN = [
+    # planarise_short_segment: bend nodes (120,120) and (120.5,120) on one run
+    _fixed_plan('fixed/K6-short-segment', 0, 125,
+                [(0, 0, 30, 30), (120, 240, 30, 30), (240, 240, 40, 20), (0, 120, 40, 20), (240, 0, 30, 30), (240, 120, 24, 24)],
+                [(0, 1), (2, 0), (3, 0), (0, 4), (0, 5), (2, 1), (3, 1), (1, 4), (5, 1), (2, 3), (2, 4), (2, 5), (4, 3), (5, 3), (5, 4)]),
+    # planarise_crossing_within_tolerance: bend (319.28,220) next to the vertical x=320
+    _fixed_plan('fixed/dense9-tolerance', 0, 125,
+                [(320, 160, 24, 24), (300, 10, 24, 24), (10, 310, 40, 20), (0, 0, 30, 30), (300, 460, 30, 30), (170, 310, 30, 30),
+                 (170, -10, 30, 30), (300, 280, 24, 24), (10, 150, 50, 30)],
+                [(3, 8), (6, 3), (1, 6), (1, 2), (5, 2), (5, 7), (0, 7), (0, 4), (8, 4), (8, 6), (1, 5), (8, 5), (6, 2), (1, 7), (3, 4), (8, 7)]),
+    # libavoid dies (SIGSEGV at orthogonal.cpp:3206, the index of the nudging assertion is out of range) while routing K7
+    _fixed_plan('fixed/K7-routing-crash', 0, 0,
+                [(0, 300, 24, 24), (0, 150, 50, 30), (150, 150, 50, 30), (150, 0, 30, 30), (150, 300, 30, 30), (150, 450, 40, 20), (300, 150, 24, 24)],
+                [(0, 1), (0, 2), (0, 3), (4, 0), (5, 0), (0, 6), (2, 1), (1, 3), (4, 1), (5, 1), (6, 1), (3, 2), (4, 2), (5, 2), (6, 2),
+                 (3, 4), (5, 3), (6, 3), (5, 4), (6, 4), (6, 5)]),
+]
+
+
 def gen_plan_graphs(rng, tier):
     """connected simple graphs with node boxes that do not overlap, to be routed orthogonally and planarised.
     router 0 = LeaflessOrthoRouter (needs minimum degree 2), 1 = RoutingAdapter(OrthogonalRouting)"""
-    out = []
+    out = list(FIXED_PLAN)
     N = 56 if tier == 'quick' else 400
     kinds = ['grid', 'grid', 'jitter', 'jitter', 'dense', 'complete', 'circle', 'big']
     nbig = 0
@@ -433,6 +457,26 @@ def classify_plan_failure(ls, v):
         t = ((c[0] - a[0]) * (d[1] - c[1]) - (c[1] - a[1]) * (d[0] - c[0])) / den
         x = (a[0] + t * (b[0] - a[0]), a[1] + t * (b[1] - a[1]))
         return min(max(abs(x[0] - e[0]), abs(x[1] - e[1])) for e in (a, b, c, d)) <= 1.0
+    # coordinates the sweep of computeCrossings cannot tell apart although removeEdgeOverlaps kept them apart: maximal chains of
+    # distinct node x values with consecutive gaps <= 0.8 (x-partition tolerance, running average) resp. y values with gaps <= 1.0
+    # (TOLERANCE of CompareActiveEvents).  An edge with an end point on such a coordinate is "tolerance-affected".
+    def ambiguous(vals, tol):
+        vals = sorted(set(vals))
+        amb, chain = set(), vals[:1]
+        for x in vals[1:]:
+            if x - chain[-1] <= tol:
+                chain.append(x)
+            else:
+                if len(chain) > 1:
+                    amb.update(chain)
+                chain = [x]
+        if len(chain) > 1:
+            amb.update(chain)
+        return amb
+    amb_x = ambiguous([p[0] for p in pos.values()], 0.8)
+    amb_y = ambiguous([p[1] for p in pos.values()], 1.0)
+    def affected(i):
+        return any(pos[n][0] in amb_x or pos[n][1] in amb_y for n in edges[i])
     pairs = [tuple(int(x) for x in v[i + 1].split(',')) for i in range(len(v) - 1) if v[i] == 'X']
     if not pairs:
         return None, shorts
@@ -440,11 +484,25 @@ def classify_plan_failure(ls, v):
     for i, j in pairs:
         if shorts and (bogus(i) or bogus(j)):
             kinds.add('planarise_short_segment')
-        elif near_end_crossing(i, j):
+        elif near_end_crossing(i, j) or affected(i) or affected(j):
             kinds.add('planarise_crossing_within_tolerance')
         else:
             return None, shorts
     return ('planarise_short_segment' if 'planarise_short_segment' in kinds else 'planarise_crossing_within_tolerance'), shorts
+
+
+def plan_case_lines(k, g, ls):
+    """driver input for one planarise case: exact values of the dumped doubles, all multiplied by one power of two per graph so
+    that they are integers (exact; a similarity of the plane, under which every clause of planarise_spec is invariant)"""
+    rn = [(l.split()[1], Fraction(float(l.split()[2])), Fraction(float(l.split()[3]))) for l in ls if l.startswith('N ')]
+    scale = max([1] + [x.denominator for _, a, b in rn for x in (a, b)])
+    out = ['P %d' % k]
+    out += ['O %d %s %s' % (i, hexq(g['pos'][i][0] * scale), hexq(g['pos'][i][1] * scale)) for i in range(g['n'])]
+    out += ['F %d %d' % e for e in g['edges']]
+    out += ['N %s %s %s' % (nm, hexq(a * scale), hexq(b * scale)) for nm, a, b in rn]
+    out += [l for l in ls if l.startswith('E ')]
+    out.append('end')
+    return out
 
 
 def run_planarise(res, rng, tier, tmp, drv, hist):
@@ -468,21 +526,7 @@ def run_planarise(res, rng, tier, tmp, drv, hist):
     df = os.path.join(tmp, 'plan_chk.txt')
     with open(df, 'w') as fh:
         for k, g in enumerate(graphs):
-            # exact values of the dumped doubles, all multiplied by one power of two per graph so that they are integers
-            # (exact; a similarity of the plane, under which every clause of planarise_spec is invariant)
-            rn = [(l.split()[1], Fraction(float(l.split()[2])), Fraction(float(l.split()[3]))) for l in cases.get(k, []) if l.startswith('N ')]
-            scale = max([1] + [x.denominator for _, a, b in rn for x in (a, b)])
-            fh.write('P %d\n' % k)
-            for i in range(g['n']):
-                fh.write('O %d %s %s\n' % (i, hexq(g['pos'][i][0] * scale), hexq(g['pos'][i][1] * scale)))
-            for a, b in g['edges']:
-                fh.write('F %d %d\n' % (a, b))
-            for nm, a, b in rn:
-                fh.write('N %s %s %s\n' % (nm, hexq(a * scale), hexq(b * scale)))
-            for l in cases.get(k, []):
-                if l.startswith('E '):
-                    fh.write(l + '\n')
-            fh.write('end\n')
+            fh.write('\n'.join(plan_case_lines(k, g, cases.get(k, []))) + '\n')
     c_out, dt = run_driver([drv, 'plan', df])
     ph['checker_s'] = round(dt, 2)
     verdict = {}
@@ -540,7 +584,7 @@ def run_planarise(res, rng, tier, tmp, drv, hist):
             bad = 'no verdict from the checker (%s)' % ' '.join(v)
         if bad and (fp or nviol < 3):
             d = plan_txt(g)
-            d.update({'what': bad, 'implementation_output': ls[:200], 'checker': ' '.join(v)[:600],
+            d.update({'what': bad, 'implementation_output': ls[:3000], 'checker': ' '.join(v)[:600],
                       'replay': 'harness/c19_plan.cpp <file with harness_input>; extract/c19_driver.ml plan <O/F/N/E lines as exact rationals>'})
             if res.violation(d, fingerprint=fp):
                 nviol += 1
